@@ -597,7 +597,7 @@ class kFlowDecomp(pathmodel.AbstractPathModelDAG):
         for u, v, data in self.G.edges(data=True):
             if self.flow_attr in data and (u,v) not in self.edges_to_ignore:
                 if (
-                    abs(flow_from_paths[(u, v)] - data[self.flow_attr])
+                    abs(flow_from_paths[(u, v)] - float(data[self.flow_attr]))
                     > tolerance * num_paths_on_edges[(u, v)]
                 ):
                     utils.logger.error(f"Flow validation failed for edge ({u}, v): expected {data[self.flow_attr]}, got {flow_from_paths[(u, v)]}")
